@@ -3,7 +3,11 @@ import numpy as np
 import pandas as pd
 
 TRANSFORMERS = ["padder", "padder20", "truncate", "truncate2_6", "interp7", "tabularizer", "concat", "paa3", "paa5", "dwt", "hog1d", "pca2", "iseg3", "iseg_arr",
-                "rseg", "slide3", "slide4", "slope3", "derslope", "plateau", "rife", "rife3", "row_log", "row_cos", "row_mean", "sfa", "sax"]
+                "rseg", "slide3", "slide4", "slope3", "derslope", "plateau", "rife", "rife3", "row_log", "row_cos", "row_mean", "sfa", "sax",
+                # the same transformers under their other interval options
+                "rseg_rand", "rseg_log", "rseg_sqrt", "rseg_frac", "rife_rand", "rife_sqrt", "slide1",
+                # ... and with interval length bounds (unit-length intervals) and user functions without an `axis` argument
+                "rseg_len1", "rseg_maxlen", "rife_fn_len1", "rife_fn"]
 CLASSIFIERS = ["tsf", "rise", "stsf", "boss", "iboss", "cboss", "muse", "colens", "colens2"]
 REGRESSORS = ["tsfreg"]
 MULTIVARIATE_OK = {"padder", "padder20", "truncate", "truncate2_6", "interp7", "tabularizer", "concat", "paa3", "paa5", "dwt", "hog1d", "slope3", "derslope", "row_log", "row_cos",
@@ -11,6 +15,16 @@ MULTIVARIATE_OK = {"padder", "padder20", "truncate", "truncate2_6", "interp7", "
 NEEDS_MULTI = {"colens2"}
 SUPERVISED_T = {"sfa"}
 MIN_LEN = {"rise": 24, "hog1d": 16, "sfa": 12, "sax": 12, "boss": 16, "iboss": 16, "cboss": 16, "muse": 16, "stsf": 20, "dwt": 8, "paa5": 5, "interp7": 2, "truncate2_6": 7}
+
+
+def _first_value(x):
+    """a user feature of one series (no `axis` argument)"""
+    return float(np.asarray(x).ravel()[0])
+
+
+def _value_range(x):
+    x = np.asarray(x, dtype=float).ravel()
+    return float(x.max() - x.min())
 
 
 def build(name, seed=0):
@@ -56,7 +70,20 @@ def build(name, seed=0):
     if name == "rseg":
         from sktime.transformations.panel.segment import RandomIntervalSegmenter
         return RandomIntervalSegmenter(n_intervals=3, random_state=seed)
-    if name in ("slide3", "slide4"):
+    if name in ("rseg_rand", "rseg_log", "rseg_sqrt", "rseg_frac"):
+        from sktime.transformations.panel.segment import RandomIntervalSegmenter
+        return RandomIntervalSegmenter(n_intervals={"rand": "random", "log": "log", "sqrt": "sqrt", "frac": 0.4}[name[5:]], random_state=seed)
+    if name in ("rife_rand", "rife_sqrt"):
+        from sktime.transformations.panel.summarize import RandomIntervalFeatureExtractor
+        return RandomIntervalFeatureExtractor(n_intervals={"rand": "random", "sqrt": "sqrt"}[name[5:]], random_state=seed)
+    if name in ("rseg_len1", "rseg_maxlen"):
+        from sktime.transformations.panel.segment import RandomIntervalSegmenter
+        return RandomIntervalSegmenter(n_intervals=6, random_state=seed, **({"min_length": 1, "max_length": 2} if name == "rseg_len1" else {"max_length": 4}))
+    if name in ("rife_fn_len1", "rife_fn"):
+        from sktime.transformations.panel.summarize import RandomIntervalFeatureExtractor
+        return RandomIntervalFeatureExtractor(n_intervals=6, features=[_first_value, _value_range, np.mean], random_state=seed,
+                                              **({"min_length": 1, "max_length": 2} if name == "rife_fn_len1" else {}))
+    if name in ("slide1", "slide3", "slide4"):
         from sktime.transformations.panel.segment import SlidingWindowSegmenter
         return SlidingWindowSegmenter(int(name[5:]))
     if name == "slope3":
